@@ -38,8 +38,8 @@ np.seterr(all="ignore")
 # repair of safe_assign_column (fix 6654639 in /repo) every container is CFloat: that is the default now;
 # PD_INT_STORED="i64,polarsint" restores the pre-fix model (used to demonstrate the finding).
 INT_STORED = tuple(c for c in os.environ.get("PD_INT_STORED", "").split(",") if c)
-CONTAINERS = ("f64", "i64", "list", "listint", "polars", "polarsint", "polarsmix")
-INT_DATA = ("i64", "listint", "polarsint", "polarsmix")
+CONTAINERS = ("f64", "i64", "list", "listint", "polars", "polarsint", "polarsmix", "polarsuint")
+INT_DATA = ("i64", "listint", "polarsint", "polarsmix", "polarsuint")
 JUDGE_TOL = Fraction(1, 10 ** 9)
 
 
@@ -63,6 +63,8 @@ def build_X(d):
         return pl.DataFrame({f"x{k}": pl.Series([float(r[k]) for r in X], dtype=pl.Float64) for k in range(p)})
     if c == "polarsint":
         return pl.DataFrame({f"x{k}": pl.Series([int(r[k]) for r in X], dtype=pl.Int64) for k in range(p)})
+    if c == "polarsuint":  # unsigned integer columns (the data are made non-negative by the generator)
+        return pl.DataFrame({f"x{k}": pl.Series([int(r[k]) for r in X], dtype=pl.UInt32) for k in range(p)})
     if c == "polarsmix":   # the feature column is float, all other columns are integer
         return pl.DataFrame({f"x{k}": (pl.Series([float(r[k]) for r in X], dtype=pl.Float64) if k == j
                                        else pl.Series([int(r[k]) for r in X], dtype=pl.Int64)) for k in range(p)})
@@ -379,6 +381,8 @@ def gen_case(rng, nmax, force=None):
     cols = [gen_values(rng, n, rng.choice([style, style, rng.choice(VALUE_STYLES)]), as_int) for _ in range(p)]
     X = [[cols[k][i] for k in range(p)] for i in range(n)]
     j = rng.randrange(p)
+    if container == "polarsuint":
+        X = [[min(abs(int(v)), 2 ** 31) for v in r] for r in X]
     if container == "polarsmix":
         X = [[float(v) if k == j else v for k, v in enumerate(r)] for r in X]
     gstyle = force.get("gstyle") or rng.choice(GRID_STYLES)
